@@ -87,6 +87,11 @@ fn check_mode<G: GraphLike>(
     let g: G = guarded(&format!("{name}: to_graph_with_options({simplify},{postselect})"), || {
         qc.to_graph_with_options(simplify, postselect)
     })?;
+    // translating the same circuit object again gives the same diagram (nothing is consumed)
+    let again: G = guarded(&format!("{name}: to_graph_with_options, second call"), || qc.to_graph_with_options(simplify, postselect))?;
+    if crate::oracle::diag::snapshot(&again).map(|s| s.diag) != crate::oracle::diag::snapshot(&g).map(|s| s.diag) {
+        return Err(format!("{name}: to_graph_with_options({simplify},{postselect}) gives a different diagram when called a second time on the same circuit"));
+    }
     let gt = match graph_truth(&g) {
         GraphTruth::Ok(t) => t,
         GraphTruth::TooBig => {
